@@ -333,8 +333,8 @@ func offsStr(o []uint64) string {
 // ---------------------------------------------------------------- generation (raw first)
 
 type genOpts struct {
-	lcDistinct int // number of distinct values for LowCardinality rows (0 = default small)
-	bigStrings bool
+	lcDistinct  int // number of distinct values for LowCardinality rows (0 = default small)
+	bigStrings  bool
 	emptyArrays bool // every array / map row is empty
 }
 
